@@ -18,9 +18,7 @@ for seed in range(a, b + 1):
             viol, _ = c_pool.monitor("sweep", path)
             tags = sorted({v["tag"] for v in viol})
             small = int(wargs[wargs.index("--origins") + 1]) <= 2
-            rej = 0
-            if small:
-                acc, rej, rj = c_pool.trace_validate("sweep", path)
+            acc, rej, rj = c_pool.trace_validate("sweep", path, cfg="PoolTrace_small.cfg" if small else "PoolTrace.cfg")
             if tags or rej:
                 bad += 1
                 keep = os.path.join(d, f"BAD-{seed}-{pid}-{i}.ndjson")
